@@ -710,6 +710,56 @@ func ruleParent(w *World, r *Report, pkg *ssa.Package) {
 	if n < 4 {
 		r.Bad(rule, fnName(top)+":instance-floor", w.Pos(top.Pos()), fmt.Sprintf("only %d context-consuming returns found", n))
 	}
+	// pointer identity is decided on the escaped text (or token by token):
+	// decoded tokens glued back together with "/" are ambiguous ("a/b" as
+	// one key and a, b as two), so nothing the context reader reaches may
+	// join or concatenate decoded tokens into a string
+	reach := map[*ssa.Function]bool{top: true}
+	work := []*ssa.Function{top}
+	for len(work) > 0 {
+		f := work[0]
+		work = work[1:]
+		allInstrs(f, func(in ssa.Instruction) {
+			c, ok := in.(ssa.CallInstruction)
+			if !ok {
+				return
+			}
+			if sf := staticCallee(c); sf != nil && sf.Blocks != nil && fnPkg(sf) == pkg.Pkg && !reach[sf] {
+				reach[sf] = true
+				work = append(work, sf)
+			}
+		})
+	}
+	glued := ""
+	for f := range reach {
+		d := NewDeriv(w, f)
+		decodedIn := func(v ssa.Value) bool {
+			for x := range d.Visited(v) {
+				if c, ok := x.(*ssa.Call); ok {
+					name := calleeFullName(c)
+					if strings.HasSuffix(name, ".DecodedTokens") || strings.HasSuffix(name, "jsonpointer.Unescape") {
+						return true
+					}
+				}
+			}
+			return false
+		}
+		allInstrs(f, func(in ssa.Instruction) {
+			switch x := in.(type) {
+			case *ssa.Call:
+				if calleeFullName(x) == "strings.Join" && len(x.Call.Args) == 2 && decodedIn(x.Call.Args[0]) {
+					glued = fnName(f) + " joins decoded pointer tokens at " + w.Pos(x.Pos())
+				}
+			case *ssa.BinOp:
+				if x.Op == token.ADD && isStringType(x.Type()) && (decodedIn(x.X) || decodedIn(x.Y)) {
+					glued = fnName(f) + " concatenates decoded pointer tokens at " + w.Pos(x.Pos())
+				}
+			}
+		})
+	}
+	r.Check(glued == "", rule, fnName(top)+":pointer-identity-on-escaped-text", w.Pos(top.Pos()),
+		fmt.Sprintf("none of the %d functions the context reader reaches glues decoded pointer tokens back into a string", len(reach)),
+		glued+": after decoding, `~1` is a plain `/`, so the pointers /a~1b/0 and /a/b/0 get the same text; a test on one array is then taken as context of an edit in the other (more permissive than RFC 6902)")
 }
 
 // rulePtrRead: readPointer decodes tokens, maps "-" to -1 and digits to indices.
